@@ -14,7 +14,8 @@ GEN = ['GChecks.v', 'GPolicy.v', 'GParser.v']
 ALPHA = ['"', 'T', 'r', 'u', 'e', 't', ' ', '\n']
 EXTRA_BODIES = ['True', 'true', 'TRUE', '"True"', '""True""', '"True', 'True"', "'True'", ' True', 'True ', 'True\n',
                 '1', 'yes', '', '""', '"', 'null', '{"allowed": true}', '[true]', 'T' * 500, 'True' * 2, '\x00True',
-                'Тrue', 'True\x00', '﻿True', '"""""True"""']
+                'Тrue', 'True\x00', '﻿True', '"""""True"""', 'T"rue', 'Tr"ue', 'Tru"e', '"Tr"ue"', 'Tr""ue', 'T"r"u"e', '"T"rue', 'True"x', 'x"True',
+                'Tr ue', 'T\nrue']
 
 
 def wire_target(t):
